@@ -812,7 +812,7 @@ func scanBufState(c *core.Ctx) []ob {
 					switch st.(type) {
 					case *ast.ExprStmt, *ast.AssignStmt:
 						for _, ev := range eventsOf(st) {
-							if ev.kind == 0 && pathsOverlap(ev.buf, v.buf) {
+							if ev.kind == 0 && pathsOverlap(ev.buf, v.buf) && reinitPrecedes(pm, st, useNode) {
 								found = true
 							}
 						}
@@ -1182,4 +1182,50 @@ func init() {
 func effFor(c *core.Ctx) *effects {
 	effectsDeep = c.Tier == "thorough"
 	return effectsOf(c.Program)
+}
+
+// reinitPrecedes reports whether the re-initialising statement r can stand for the use u: their nearest common ancestor
+// is a statement list in which the statement holding r comes before the one holding u (`if cond { r }` followed by the
+// branches that use the buffer). A re-initialisation in one arm of an if does not serve a use in the other arm.
+func reinitPrecedes(pm map[ast.Node]ast.Node, r, u ast.Node) bool {
+	anc := map[ast.Node]ast.Node{} // ancestor of r -> its child on the way to r
+	var child ast.Node = r
+	for p := pm[r]; p != nil; child, p = p, pm[p] {
+		anc[p] = child
+	}
+	child = u
+	for p := pm[u]; p != nil; child, p = p, pm[p] {
+		rc, ok := anc[p]
+		if !ok {
+			continue
+		}
+		blk, isBlock := p.(*ast.BlockStmt)
+		if !isBlock {
+			// a case clause body is a statement list as well
+			if cc, ok := p.(*ast.CaseClause); ok {
+				ri, ui := -1, -1
+				for i, st := range cc.Body {
+					if ast.Node(st) == rc {
+						ri = i
+					}
+					if ast.Node(st) == child {
+						ui = i
+					}
+				}
+				return ri >= 0 && ui >= 0 && ri < ui
+			}
+			return false
+		}
+		ri, ui := -1, -1
+		for i, st := range blk.List {
+			if ast.Node(st) == rc {
+				ri = i
+			}
+			if ast.Node(st) == child {
+				ui = i
+			}
+		}
+		return ri >= 0 && ui >= 0 && ri < ui
+	}
+	return false
 }
